@@ -260,7 +260,10 @@ impl<'tcx> D<'tcx> {
                 "assignop",
                 vec![J::S(format!("{:?}", op.node)), self.expr(l, ctxt), self.expr(r, ctxt)],
             ),
-            Field(x, id) => J::tag("field", vec![self.expr(x, ctxt), J::S(id.name.to_string())]),
+            Field(x, id) => J::tag(
+                "field",
+                vec![self.expr(x, ctxt), J::S(id.name.to_string()), J::S(tystr(self.tr.expr_ty_adjusted(x)))],
+            ),
             Index(a, i, _) => J::tag("index", vec![self.expr(a, ctxt), self.expr(i, ctxt)]),
             Path(ref qp) => self.qpath(qp, e.hir_id),
             AddrOf(_, m, x) => J::tag("addr", vec![J::B(m.is_mut()), self.expr(x, ctxt)]),
